@@ -74,6 +74,7 @@ type Gen struct {
 	preds    map[string]*typePredT
 	topCt    *Contract // contract of the function under verification
 	dynCount, dynQueries, dynUnknown, dynUnresolved int
+	trackLocks bool   // the function under verification takes or releases mutexes: lock balance is an obligation
 	dynLast    string // the closure the previous call through a function value was resolved to
 	dynGaveUp  bool
 	fnValues map[string]*ssa.Function // function values taken in this proof context (term -> function)
@@ -1297,6 +1298,7 @@ func (g *Gen) mergeStateList(sts []*State, conds []string) *State {
 // ---------- loops ----------
 
 type loopCtx struct {
+	locksAtHead string
 	header    *ssa.BasicBlock
 	phis      []*ssa.Phi
 	idx       int
@@ -1608,6 +1610,12 @@ func (a *Act) loopHead(b *ssa.BasicBlock, ins []edgeIn, backs []*ssa.BasicBlock,
 		st.H[k] = g.framedHeapK(a.nm(fmt.Sprintf("loop%d", idx)), k, g.entry.H[k], g.entry.Next, g.modRefs, g.modKindsOnly, true)
 	}
 	g.ghostForget(stIn, st, reach)
+	if g.trackLocks {
+		// the locks held at the loop head are the ones held on entry to the loop (every iteration must restore that:
+		// obligation at the back edges)
+		st.H["G"] = g.def("HG", heapSort["G"], sto(st.H["G"], ghostLockRef, "0", g.locksNow(stIn)))
+		lc.locksAtHead = g.locksNow(stIn)
+	}
 	if g.trackEsc {
 		// the ghost counter of escaping allocations: at least what it was on entry to the loop (the frames above know
 		// nothing about it, or would reset it)
@@ -1822,6 +1830,9 @@ func (a *Act) backEdge(from *ssa.BasicBlock, hdr *ssa.BasicBlock, cond string, s
 		for i, c := range g.recvSliceInv(st) {
 			g.oblige("inv-preserve", fmt.Sprintf("%s:auto:recv-slices#%d:edge%d", lname, i, be), cond, c, p1, "automatic invariant: slices of the receiver use their original array or memory allocated during the call")
 		}
+	}
+	if g.trackLocks && lc.locksAtHead != "" {
+		g.oblige("inv-preserve", fmt.Sprintf("%s:auto:locks:edge%d", lname, be), cond, fmt.Sprintf("(= %s %s)", g.locksNow(st), lc.locksAtHead), p1, "lock balance: an iteration releases the mutexes it locks")
 	}
 	if lc.aliasInv != nil {
 		for i, c := range lc.aliasInv(st) {
@@ -2133,6 +2144,9 @@ func (a *Act) fireCut(c *Cut, instr ssa.Instruction, st *State, reach string) {
 					st.H[k] = g.framedHeapK(a.nm("cut"), k, g.entry.H[k], g.entry.Next, g.modRefs, g.modKindsOnly, true)
 				}
 				g.ghostForget(old, st, reach)
+				if g.trackLocks {
+					st.H["G"] = g.def("HG", heapSort["G"], sto(st.H["G"], ghostLockRef, "0", g.locksNow(old)))
+				}
 				if g.trackEsc {
 					st.H["G"] = g.def("HG", heapSort["G"], sto(st.H["G"], ghostEscRef, "0", g.escNow(old)))
 				}
